@@ -59,7 +59,7 @@ Reasons(e) == (IF WrongNonce(e) THEN {"nonce"} ELSE {}) \cup (IF CannotPay(e) TH
 Ante(c, e) ==
    CASE c = "RefusedChangesNothing" -> IsApply(e) /\ UpFront(e)
      [] c = "RevertedUnchanged"     -> IsApply(e) /\ ~Applied(e) /\ e.mode = "miner"
-     [] c = "SenderAuthentic"       -> e.ev \in {"Sender", "Resolve", "SenderV"}
+     [] c = "SenderAuthentic"       -> e.ev \in {"Sender", "Resolve", "SenderV"} \/ (e.ev = "Obj" /\ e.op \in {"home", "foreign", "hash", "apply"})
      [] OTHER                       -> IsApply(e) /\ Applied(e)
 
 Holds(c, e) ==
@@ -95,6 +95,11 @@ Holds(c, e) ==
           IF e.ev = "Sender" THEN (IF e.mut = "none" THEN e.res = "same" ELSE e.res \in {"err", "other"})
           \* "changing any field, the network id ..." for the V of the signature, exhaustively: of every V presented with the
           \* same fields, R and S, only the one the signature was made with names the key holder
+          \* ... and for an object that was RE-USED: another transaction (content "B", signed by the second key) was decoded into it
+          \* after its caches were filled.  Sender, hash and the account charged when it is applied follow the fields it holds NOW
+          ELSE IF e.ev = "Obj" THEN (CASE e.op \in {"home", "apply"} -> e.res = e.content
+                                       [] e.op = "foreign" -> e.res \in {"err", "other"}
+                                       [] OTHER -> e.res = e.content)
           ELSE IF e.ev = "SenderV" THEN ((e.res = "same") <=> (e.v = e.orig)) /\ e.res \in {"same", "err", "other"}
           \* the same sentence for one transaction OBJECT asked repeatedly, under the signer of this network ("home") and a
           \* signer for another network id ("foreign"): only the home signer may name the key holder, only for the unmutated
@@ -115,6 +120,7 @@ Disc(c, e) ==
                                 THEN {"staking_failed_gas", e.vtag}
                                 ELSE InputClass(e)
      [] c = "SenderAuthentic" -> IF e.ev = "Sender" THEN {e.mut, e.res}
+                                 ELSE IF e.ev = "Obj" THEN {"reused_object", e.op, "via_" \o e.via, "answer_" \o e.res}
                                  ELSE IF e.ev = "SenderV" THEN {"vsweep", e.res, IF e.v = e.orig THEN "original_v" ELSE "other_v"}
                                  ELSE {e.mut, e.res, "signer_" \o e.signer, IF e.step > 1 THEN "asked_before" ELSE "fresh_object"}
      [] c = "RevertedUnchanged" -> {e.err, e.vtag}
@@ -126,7 +132,7 @@ Step ==
    /\ l <= Len(TraceLog)
    /\ l' = l + 1
    /\ LET e == TraceLog[l] IN
-      IF e.ev \in {"Apply", "ApplyBig", "Sender", "Resolve", "SenderV"} /\ "panic" \notin DOMAIN e
+      IF e.ev \in {"Apply", "ApplyBig", "Sender", "Resolve", "SenderV", "Obj"} /\ "panic" \notin DOMAIN e
       THEN LET A == { c \in Clauses : Ante(c, e) } IN
            /\ fired' = [c \in Clauses |-> IF c \in A THEN fired[c] + 1 ELSE fired[c]]
            /\ viol' = viol \cup { <<c, Disc(c, e), l>> : c \in { k \in A : ~Holds(k, e) } }
